@@ -79,6 +79,9 @@ pub struct Session {
     /// flush requests completed by the store's workers
     pub worker_done: AtomicU64,
     pub worker_begin: AtomicU64,
+    /// workers that have seen a request (or shutdown) and not yet reported completion
+    pub busy_workers: AtomicI64,
+    pub coordinator_rounds: AtomicU64,
     pub sched: Mutex<Option<Arc<dyn SchedHooks>>>,
     /// Environment action run when the store reaches a named point (sequential engines).
     pub point_cb: Mutex<Option<Box<dyn Fn(&'static str) + Send + Sync>>>,
@@ -105,6 +108,8 @@ impl Session {
             fsyncs: AtomicU64::new(0),
             worker_done: AtomicU64::new(0),
             worker_begin: AtomicU64::new(0),
+            busy_workers: AtomicI64::new(0),
+            coordinator_rounds: AtomicU64::new(0),
             sched: Mutex::new(None),
             point_cb: Mutex::new(None),
             points_seen: Mutex::new(Vec::new()),
@@ -260,6 +265,16 @@ impl Handler for Session {
     fn wait_until(&self, name: &'static str, ready: &dyn Fn() -> bool) {
         if let Some(s) = self.sched() {
             s.wait_until(name, ready);
+        } else if name == "worker_recv" {
+            // never block in the OS with an empty channel: poll, so that "a request is
+            // queued" and "a worker is busy" together cover every instant
+            while !ready() {
+                std::thread::sleep(std::time::Duration::from_micros(50));
+            }
+        }
+        if name == "worker_recv" {
+            // the worker is about to take a request (or to shut down)
+            self.busy_workers.fetch_add(1, Ordering::SeqCst);
         }
     }
 
@@ -273,6 +288,9 @@ impl Handler for Session {
     fn note(&self, name: &'static str, a: u64, b: u64) {
         if name == "worker_done" {
             self.worker_done.fetch_add(1, Ordering::SeqCst);
+            self.busy_workers.fetch_sub(1, Ordering::SeqCst);
+        } else if name == "coordinator_round_done" {
+            self.coordinator_rounds.fetch_add(1, Ordering::SeqCst);
         } else if name == "worker_begin" {
             self.worker_begin.fetch_add(1, Ordering::SeqCst);
         }
